@@ -76,8 +76,79 @@ fn check_state(n_items: u64, item_len: usize, max_file: u64, index_len: u64, hea
     Ok(())
 }
 
+
+/// same-session operation sequences checked against a plain Vec model ("after any sequence of appends,
+/// truncations and re-opens ... each returned byte-for-byte as written")
+/// ops: 'A' append next item, 'F' retrieve first item, 'M' retrieve a middle item, 'L' retrieve last item,
+///      'T' truncate keeping all but the last item, 'O' drop and re-open
+fn check_sequence(ops: &str, item_len: usize, max_file: u64) -> Result<(), String> {
+    let tmp = tempfile::Builder::new().prefix("verif-freezer").tempdir().unwrap();
+    let dir = tmp.path();
+    let open = || -> Result<_, String> {
+        let mut f = FreezerFilesBuilder::new(dir.to_path_buf()).max_file_size(max_file).enable_compression(false).build().map_err(|e| format!("open failed: {e}"))?;
+        f.preopen().map_err(|e| format!("preopen failed: {e}"))?;
+        Ok(f)
+    };
+    let mut f = open()?;
+    let mut model: Vec<Vec<u8>> = Vec::new();   // model[i-1] = item i
+    let mut next_tag: u64 = 1;
+    for (step, op) in ops.chars().enumerate() {
+        match op {
+            'A' => {
+                let n = model.len() as u64 + 1;
+                let d = item(next_tag, item_len);
+                next_tag += 1;
+                f.append(n, &d).map_err(|e| format!("step {step} append({n}) failed: {e}"))?;
+                model.push(d);
+            }
+            'F' | 'M' | 'L' => {
+                if model.is_empty() { continue; }
+                let i = match op { 'F' => 1, 'L' => model.len(), _ => (model.len() + 1) / 2 };
+                match f.retrieve(i as u64) {
+                    Ok(Some(d)) if d == model[i - 1] => {}
+                    other => return Err(format!("step {step} retrieve({i}) returned {:?}, expected {} bytes of {}", other.map(|o| o.map(|v| (v.len(), v.first().copied()))), item_len, model[i - 1][0])),
+                }
+            }
+            'T' => {
+                if model.len() < 2 { continue; }
+                let keep = model.len() as u64 - 1;
+                f.truncate(keep).map_err(|e| format!("step {step} truncate({keep}) failed: {e}"))?;
+                model.truncate(keep as usize);
+            }
+            'O' => { drop(f); f = open()?; }
+            _ => {}
+        }
+        if f.number() != model.len() as u64 + 1 {
+            return Err(format!("step {step} ({op}): number()={} but the model holds {} items", f.number(), model.len()));
+        }
+    }
+    // final read-back of everything, in the same session and after a re-open
+    for pass in 0..2 {
+        for i in 1..=model.len() {
+            match f.retrieve(i as u64) {
+                Ok(Some(d)) if d == model[i - 1] => {}
+                other => return Err(format!("final read-back (pass {pass}) retrieve({i}) returned {:?}, expected {} bytes of {}", other.map(|o| o.map(|v| (v.len(), v.first().copied()))), item_len, model[i - 1][0])),
+            }
+        }
+        if pass == 0 { drop(f); f = open()?; if f.number() != model.len() as u64 + 1 { return Err(format!("after final re-open number()={} but the model holds {} items", f.number(), model.len())); } }
+    }
+    Ok(())
+}
+
+fn sequences(alphabet: &[char], len: usize, out: &mut Vec<String>, cur: &mut String) {
+    if cur.len() == len { out.push(cur.clone()); return; }
+    for c in alphabet { cur.push(*c); sequences(alphabet, len, out, cur); cur.pop(); }
+}
+
 fn main() {
     let args: Vec<String> = std::env::args().collect();
+    if args.len() >= 5 && args[1] == "replay-seq" {
+        match check_sequence(&args[2], args[3].parse().unwrap(), args[4].parse().unwrap()) {
+            Ok(()) => { println!("{{\"outcome\":\"property holds on this sequence\"}}"); }
+            Err(e) => { println!("{{\"outcome\":\"VIOLATED\",\"detail\":{:?}}}", e); std::process::exit(1); }
+        }
+        return;
+    }
     if args.len() >= 2 && args[1] == "replay" {
         let n: u64 = args[2].parse().unwrap();
         let il: usize = args[3].parse().unwrap();
@@ -122,6 +193,18 @@ fn main() {
                     break 'outer;
                 }
             }
+        }
+    }
+    // operation sequences in one session (prefix "AA" so that there is something to read), 15-byte items, 50-byte files
+    let mut seqs = Vec::new();
+    for l in 1..=5 { sequences(&['A', 'F', 'M', 'L', 'T', 'O'], l, &mut seqs, &mut String::new()); }
+    for sq in seqs {
+        let ops = format!("AA{sq}A");
+        tried += 1;
+        if let Err(e) = check_sequence(&ops, il, mf) {
+            println!("{{\"sequence\":{:?},\"item_len\":{il},\"max_file\":{mf},\"violation\":{:?}}}", ops, e);
+            fails += 1;
+            break;
         }
     }
     eprintln!("states tried: {tried}, violations: {fails}");
